@@ -60,7 +60,7 @@ func (ex *Exec) findCtx(recv Val, args []Val) *CtxV {
 }
 
 func (ex *Exec) callExternal(fr *Frame, name string, sig *types.Signature, recv Val, args []Val, st *State, call *ssa.Call) []Result {
-	one := func(v Val) []Result { return []Result{{st, v}} }
+	one := func(v Val) []Result { return []Result{{st, v, nil}} }
 	short := shortCallee(name)
 	method := short
 	if j := strings.LastIndex(short, "."); j >= 0 {
@@ -449,7 +449,7 @@ func pbTag(t types.Type, codec string) string {
 }
 
 func (ex *Exec) marshal(st *State, short, method string, sig *types.Signature, recv Val, args []Val, call *ssa.Call) []Result {
-	one := func(v Val) []Result { return []Result{{st, v}} }
+	one := func(v Val) []Result { return []Result{{st, v, nil}} }
 	// value being encoded: receiver (x.Marshal()) or first argument (cdc.MustMarshal(&x))
 	var v Val
 	var vt types.Type
@@ -519,7 +519,7 @@ func (ex *Exec) marshal(st *State, short, method string, sig *types.Signature, r
 }
 
 func (ex *Exec) unmarshal(st *State, short, method string, sig *types.Signature, recv Val, args []Val, call *ssa.Call) []Result {
-	one := func(v Val) []Result { return []Result{{st, v}} }
+	one := func(v Val) []Result { return []Result{{st, v, nil}} }
 	isCodec := strings.Contains(short, "Codec)") || strings.Contains(short, "codec.") || strings.Contains(short, "Marshaler)")
 	var target Val
 	var bz *Term
@@ -571,6 +571,14 @@ func (ex *Exec) unmarshal(st *State, short, method string, sig *types.Signature,
 		okk = Or(isNil, okk)
 		dec = Ite(isNil, zeroTerm(et), dec)
 	}
+	if !dec.hasBV {
+		// decoded values are Go values: representation invariants hold
+		tmp := NewState()
+		ex.typeInvariant(tmp, dec, et, 0)
+		for _, c := range tmp.pc {
+			st.AssumeDef(c)
+		}
+	}
 	if fromStore(bz) {
 		// W (DESIGN 2.3): values read from the store decode with the codec of their reader; the codec-consistency
 		// sweep (C13) checks that every family is written with the codec it is read with.
@@ -607,7 +615,7 @@ func fromStore(b *Term) bool {
 // ---------------------------------------------------------------- sort.Slice
 
 func (ex *Exec) sortSlice(fr *Frame, st *State, args []Val, call *ssa.Call, stable bool) []Result {
-	one := func(v Val) []Result { return []Result{{st, v}} }
+	one := func(v Val) []Result { return []Result{{st, v, nil}} }
 	iv, ok := args[0].(*IfaceV)
 	if !ok {
 		ex.unsupp("sort.Slice on unknown value")
